@@ -63,6 +63,9 @@ def _parse(out, res):
     res.stdout = out
     for m in _RE_STATS.finditer(out):
         res.generated, res.distinct = int(m.group(1)), int(m.group(2))
+    ms = re.search(r"The number of states generated: (\d+)", out)
+    if ms and res.generated == 0:
+        res.generated = res.distinct = int(ms.group(1))
     m = _RE_DEPTH.search(out)
     if m:
         res.depth = int(m.group(1))
